@@ -5,6 +5,7 @@ package dicescript
 func init() {
 	vHarnesses["VH_C18_assign"] = VH_C18_assign
 	vHarnesses["VH_C18_modify"] = VH_C18_modify
+	vHarnesses["VH_C18_modify_float"] = VH_C18_modify_float
 }
 
 type vStCall struct {
@@ -58,6 +59,38 @@ func vDigits(label string, k int) ([]byte, int64) {
 		v = v*10 + int64(b[i]-'0')
 	}
 	return b, v
+}
+
+// amounts written as floats or parenthesised float expressions (concrete)
+var vC18FloatAmounts = []struct {
+	src string
+	val float64
+}{{"1.5", 1.5}, {"(1.25+1)", 2.25}, {"0.5", 0.5}}
+
+//vh:prop=C18 tiers=quick,thorough sigkeys=form,amount overrides=formatFriendlyError budget_s=600 bounds="one attribute modification in each of the 7 spellings with a float amount (1.5, (1.25+1), 0.5): value sign-normalised for subtraction, operator verbatim"
+func VH_C18_modify_float() {
+	f := vC18ModifyForms[vChoice("form", len(vC18ModifyForms))]
+	am := vC18FloatAmounts[vChoice("amount", len(vC18FloatAmounts))]
+	vm := vNewVM()
+	var calls []vStCall
+	vm.Config.CallbackSt = func(typ string, name string, val *VMValue, extra *VMValue, op string, detail string) {
+		calls = append(calls, vStCall{typ, name, op, detail, val, extra})
+	}
+	err := vm.Run("^st" + f.pre + am.src)
+	vReach("ran")
+	vAssert(err == nil, "edit-is-accepted")
+	if err != nil {
+		return
+	}
+	vAssert(len(calls) == 1, "callback-fires-once")
+	if len(calls) != 1 {
+		return
+	}
+	c := calls[0]
+	vAssert(c.typ == "mod" && c.name == f.name && c.op == f.op, "kind-name-operator-verbatim")
+	fv, ok := c.val.ReadFloat()
+	vAssert(ok, "value-is-a-float")
+	vAssert(fv == am.val, "value-is-the-written-amount (sign-normalised)")
 }
 
 func vC18Run(forms []vStForm, maxEdits int) {
